@@ -530,14 +530,17 @@ static bool has_varargs(MacroArg *args) {
   return false;
 }
 
-// Replace func-like macro parameters with given arguments.
-static Token *subst(Token *tok, MacroArg *args) {
+// Replace func-like macro parameters with given arguments and
+// execute the # and ## operators of a replacement list. In an
+// object-like macro there are no parameters and # is an ordinary
+// token, but ## still pastes (C11 6.10.3.3).
+static Token *subst(Token *tok, MacroArg *args, bool is_objlike) {
   Token head = {};
   Token *cur = &head;
 
   while (tok->kind != TK_EOF) {
     // "#" followed by a parameter is replaced with stringized actuals.
-    if (equal(tok, "#")) {
+    if (!is_objlike && equal(tok, "#")) {
       MacroArg *arg = find_arg(args, tok->next);
       if (!arg)
         error_tok(tok->next, "'#' is not followed by a macro parameter");
@@ -694,7 +697,7 @@ static bool expand_macro(Token **rest, Token *tok) {
   // Object-like macro application
   if (m->is_objlike) {
     Hideset *hs = hideset_union(tok->hideset, new_hideset(m->name));
-    Token *body = add_hideset(m->body, hs);
+    Token *body = add_hideset(subst(m->body, NULL, true), hs);
     for (Token *t = body; t->kind != TK_EOF; t = t->next)
       t->origin = tok;
     *rest = append(body, tok->next);
@@ -725,7 +728,7 @@ static bool expand_macro(Token **rest, Token *tok) {
   Hideset *hs = hideset_intersection(macro_token->hideset, rparen->hideset);
   hs = hideset_union(hs, new_hideset(m->name));
 
-  Token *body = subst(m->body, args);
+  Token *body = subst(m->body, args, false);
   body = add_hideset(body, hs);
   for (Token *t = body; t->kind != TK_EOF; t = t->next)
     t->origin = macro_token;
